@@ -37,11 +37,123 @@ func c16Gen(r *verifh.Rng) []verifh.Section {
 	secs = append(secs, c16GenSafeMap(r.Fork())...)
 	secs = append(secs, c16GenRW(r.Fork())...)
 	secs = append(secs, c16GenCache(r.Fork())...)
+	secs = append(secs, c16GenMulti(r.Fork(), secs)...)
 	return secs
+}
+
+// Multi-instance sections: two (or three) instances of one structure live side by side and their operations are
+// interleaved.  Header `s=multi`; `@i new <cfg>` creates instance i (cfg = the header of a single-instance
+// section), `@i <op>` runs op on it.  Instances must not influence each other (package-level state, shared backing
+// arrays, options / closures shared between constructors): the driver replays every instance on its own.
+// Cache instances with the same limit are built from ONE CacheOption value (c16OptMemo).
+func c16GenMulti(r *verifh.Rng, single []verifh.Section) []verifh.Section {
+	by := map[string][]verifh.Section{}
+	for _, s := range single {
+		k := verifh.ParseCfg(s.Cfg).Str("s", "")
+		if len(s.Ops) <= 400 && !strings.Contains(s.Cfg, "size=0") {
+			by[k] = append(by[k], s)
+		}
+	}
+	var secs []verifh.Section
+	for _, k := range []string{"queue", "ring", "set", "safemap", "rw", "cache"} {
+		pool := by[k]
+		if len(pool) < 3 {
+			continue
+		}
+		n := verifh.Scale(6, 80)
+		if k == "cache" {
+			n = verifh.Scale(12, 120)
+		}
+		for i := 0; i < n; i++ {
+			ninst := r.Pick(2, 2, 2, 3)
+			var parts [][]string
+			var firstCfg string
+			for j := 0; j < ninst; j++ {
+				src := pool[r.Intn(len(pool))]
+				cfg := src.Cfg
+				if j == 0 {
+					firstCfg = cfg
+				} else if r.Chance(2, 3) {
+					cfg = firstCfg // same parameters: the same CacheOption value for caches
+				}
+				ops := []string{fmt.Sprintf("@%d new %s", j, cfg)}
+				for _, op := range src.Ops {
+					ops = append(ops, fmt.Sprintf("@%d %s", j, op))
+				}
+				parts = append(parts, ops)
+			}
+			// interleave, in runs of random length (a run of 1 alternates strictly)
+			var ops []string
+			for {
+				var live []int
+				for j, p := range parts {
+					if len(p) > 0 {
+						live = append(live, j)
+					}
+				}
+				if len(live) == 0 {
+					break
+				}
+				j := live[r.Intn(len(live))]
+				run := r.Pick(1, 1, 2, 3, r.Range(1, 12))
+				if len(ops) < ninst {
+					run = 1
+				}
+				for ; run > 0 && len(parts[j]) > 0; run-- {
+					ops = append(ops, parts[j][0])
+					parts[j] = parts[j][1:]
+				}
+			}
+			secs = append(secs, verifh.Section{Cfg: "s=multi of=" + k, Ops: ops})
+		}
+	}
+	return secs
+}
+
+// c16OptMemo, while non-nil, makes c16StartCache reuse one CacheOption value per limit
+var c16OptMemo map[int]CacheOption
+
+func c16StartMulti(cfg verifh.Cfg) (func(op []string) string, func()) {
+	steps := map[string]func(op []string) string{}
+	var dones []func()
+	memo := map[int]CacheOption{}
+	return func(op []string) string {
+			if len(op) < 2 || !strings.HasPrefix(op[0], "@") {
+				return "bad-op"
+			}
+			if op[1] == "new" {
+				if _, dup := steps[op[0]]; dup {
+					return "bad-op"
+				}
+				icfg := verifh.ParseCfg(strings.Join(op[2:], " "))
+				st, ok := c16Starters[icfg.Str("s", "")]
+				if !ok || icfg.Str("s", "") == "multi" {
+					return "bad-structure"
+				}
+				c16OptMemo = memo
+				step, done := st(icfg)
+				c16OptMemo = nil
+				steps[op[0]] = step
+				if done != nil {
+					dones = append(dones, done)
+				}
+				return "ok"
+			}
+			step, ok := steps[op[0]]
+			if !ok {
+				return "no-instance"
+			}
+			return step(op[1:])
+		}, func() {
+			for _, d := range dones {
+				d()
+			}
+		}
 }
 
 func TestVerifC16(t *testing.T) {
 	logx.Disable()
+	c16Starters["multi"] = c16StartMulti
 	secs := verifh.Sections(c16Gen)
 	verifh.Run(t, secs, func(cfg verifh.Cfg) (func(op []string) string, func()) {
 		st, ok := c16Starters[cfg.Str("s", "")]
@@ -91,6 +203,39 @@ func c16GenQueue(r *verifh.Rng) []verifh.Section {
 		}
 		secs = append(secs, verifh.Section{Cfg: fmt.Sprintf("s=queue size=%d", size), Ops: ops})
 	}
+	// several expansions, each with a wrapped buffer (head != 0) and a different head: fill, take j (head = j),
+	// put until full again (tail wraps to head), one more put grows; repeat on the grown buffer
+	for i := 0; i < verifh.Scale(12, 150); i++ {
+		size := r.Pick(1, 2, 3, 4, 5, r.Range(1, 9))
+		var ops []string
+		next, count, capa := 1, 0, size
+		put := func() { ops = append(ops, fmt.Sprintf("put %d", next)); next++; count++ }
+		for round := r.Range(2, 5); round > 0; round-- {
+			for count < capa {
+				put()
+			}
+			j := r.Pick(1, 1, capa-1, r.Range(1, capa), capa)
+			if j > count {
+				j = count
+			}
+			for ; j > 0; j-- {
+				ops = append(ops, "take")
+				count--
+			}
+			for count < capa {
+				put()
+			}
+			put() // grows (wrapped unless everything was taken)
+			capa += size
+			if r.Chance(1, 3) {
+				ops = append(ops, "empty")
+			}
+		}
+		for ; count >= 0; count-- {
+			ops = append(ops, "take")
+		}
+		secs = append(secs, verifh.Section{Cfg: fmt.Sprintf("s=queue size=%d", size), Ops: ops})
+	}
 	return secs
 }
 
@@ -121,12 +266,15 @@ func c16GenRing(r *verifh.Rng) []verifh.Section {
 	nsec := verifh.Scale(40, 600)
 	for i := 0; i < nsec; i++ {
 		n := r.Pick(1, 2, 3, 4, 5, 7, r.Range(1, 40))
+		if i == 0 || i == 1 {
+			n = -3 * i // NewRing(0), NewRing(-3): the constructor panics
+		}
 		var ops []string
 		next := 1
 		// take at every fill level around n and 2n (index fold-back)
-		nops := r.Pick(n-1, n, n+1, 2*n-1, 2*n, 2*n+1, 3*n, 4*n+1, r.Range(0, 5*n+3))
-		if nops < 0 {
-			nops = 0
+		nops := 3
+		if n >= 1 {
+			nops = r.Pick(n-1, n, n+1, 2*n-1, 2*n, 2*n+1, 3*n, 4*n+1, r.Range(0, 5*n+3))
 		}
 		dense := r.Chance(1, 3)
 		for j := 0; j < nops; j++ {
@@ -143,9 +291,15 @@ func c16GenRing(r *verifh.Rng) []verifh.Section {
 }
 
 func c16StartRing(cfg verifh.Cfg) (func(op []string) string, func()) {
-	rg := NewRing(cfg.Int("n", 1))
+	var rg *Ring
+	func() {
+		defer func() { recover() }()
+		rg = NewRing(cfg.Int("n", 1))
+	}()
 	return func(op []string) string {
 		switch {
+		case rg == nil:
+			return "PANIC-new"
 		case len(op) == 2 && op[0] == "add":
 			rg.Add(verifh.Atoi(op[1]))
 			return "ok"
@@ -219,8 +373,26 @@ func c16GenSet(r *verifh.Rng) []verifh.Section {
 		nops := r.Range(3, verifh.Scale(60, 150))
 		for j := 0; j < nops; j++ {
 			switch x := r.Intn(100); {
-			case x < 35:
+			case x < 25:
 				ops = append(ops, "add "+elem())
+			case x < 31:
+				// variadic: several elements of one type in one call (also zero elements, duplicates)
+				t := main
+				if mixed && r.Chance(1, 3) {
+					t = r.Range(2, 7)
+				}
+				op := fmt.Sprintf("addn %d", t)
+				for n := r.Pick(0, 2, 2, 3, 4, 6); n > 0; n-- {
+					op += fmt.Sprintf(" %d", r.Intn(nvals+2))
+				}
+				ops = append(ops, op)
+			case x < 35:
+				// variadic Add(...any) with elements of several types
+				op := "addmix"
+				for n := r.Pick(0, 1, 2, 3, 5); n > 0; n-- {
+					op += " " + elem()
+				}
+				ops = append(ops, op)
 			case x < 55:
 				ops = append(ops, "remove "+elem())
 			case x < 85:
@@ -263,6 +435,54 @@ func c16StartSet(cfg verifh.Cfg) (func(op []string) string, func()) {
 				s.Add(c16Elem(t, v))
 			}
 			return fmt.Sprintf("tp=%d", s.tp)
+		case len(op) >= 2 && op[0] == "addn":
+			t := verifh.Atoi(op[1])
+			vs := make([]int, len(op)-2)
+			for i := range vs {
+				vs[i] = verifh.Atoi(op[i+2])
+			}
+			switch t {
+			case intType:
+				s.AddInt(vs...)
+			case int64Type:
+				xs := make([]int64, len(vs))
+				for i, v := range vs {
+					xs[i] = int64(v)
+				}
+				s.AddInt64(xs...)
+			case uintType:
+				xs := make([]uint, len(vs))
+				for i, v := range vs {
+					xs[i] = uint(v)
+				}
+				s.AddUint(xs...)
+			case uint64Type:
+				xs := make([]uint64, len(vs))
+				for i, v := range vs {
+					xs[i] = uint64(v)
+				}
+				s.AddUint64(xs...)
+			case stringType:
+				xs := make([]string, len(vs))
+				for i, v := range vs {
+					xs[i] = strconv.Itoa(v)
+				}
+				s.AddStr(xs...)
+			default:
+				xs := make([]any, len(vs))
+				for i, v := range vs {
+					xs[i] = c16Elem(t, v)
+				}
+				s.Add(xs...)
+			}
+			return fmt.Sprintf("tp=%d", s.tp)
+		case len(op) >= 1 && len(op)%2 == 1 && op[0] == "addmix":
+			var xs []any
+			for i := 1; i+1 < len(op); i += 2 {
+				xs = append(xs, c16Elem(verifh.Atoi(op[i]), verifh.Atoi(op[i+1])))
+			}
+			s.Add(xs...)
+			return fmt.Sprintf("tp=%d", s.tp)
 		case len(op) == 3 && op[0] == "remove":
 			s.Remove(c16Elem(verifh.Atoi(op[1]), verifh.Atoi(op[2])))
 			return fmt.Sprintf("tp=%d", s.tp)
@@ -271,22 +491,34 @@ func c16StartSet(cfg verifh.Cfg) (func(op []string) string, func()) {
 		case len(op) == 1 && op[0] == "count":
 			return strconv.Itoa(s.Count())
 		case len(op) == 1 && op[0] == "keys":
-			// Keys() plus the typed views must partition the key set
+			// Keys(), then the union of the typed views (KeysInt … KeysStr; elements of other types from Keys()):
+			// each view must hold exactly the keys of its type
 			all := s.Keys()
-			typed := len(s.KeysInt()) + len(s.KeysInt64()) + len(s.KeysUint()) + len(s.KeysUint64()) + len(s.KeysStr())
-			other := 0
 			pairs := make([][2]int, 0, len(all))
+			var views [][2]int
 			for _, k := range all {
 				t, v := c16ElemBack(k)
 				if t == 7 {
-					other++
+					views = append(views, [2]int{t, v})
 				}
 				pairs = append(pairs, [2]int{t, v})
 			}
-			if typed+other != len(all) {
-				return "typed-views-disagree"
+			for _, k := range s.KeysInt() {
+				views = append(views, [2]int{intType, k})
 			}
-			return c16Pairs(pairs)
+			for _, k := range s.KeysInt64() {
+				views = append(views, [2]int{int64Type, int(k)})
+			}
+			for _, k := range s.KeysUint() {
+				views = append(views, [2]int{uintType, int(k)})
+			}
+			for _, k := range s.KeysUint64() {
+				views = append(views, [2]int{uint64Type, int(k)})
+			}
+			for _, k := range s.KeysStr() {
+				views = append(views, [2]int{stringType, verifh.Atoi(k)})
+			}
+			return strings.TrimSpace(c16Pairs(pairs) + " | " + c16Pairs(views))
 		}
 		return "bad-op"
 	}, nil
